@@ -10,7 +10,7 @@ Definition file_of (zs ts : list N) (i : N) : N :=
 
 Inductive obs := OK (n : N) | OW (n : N) | OE | OP.
 
-Definition op_start (o : op) : N := match o with ReadAt off _ => off | ReadUntil s _ _ => s end.
+Definition op_start (o : op) : N := match o with ReadAt off _ => off | ReadUntil s _ _ => s | ReadInto off _ => off end.
 
 Definition matches (o : op) (expected : outcome) (ob : obs) : bool :=
   match expected, ob with
